@@ -307,7 +307,6 @@ def forms():
     form("pinv(A, alg)", "pinv", ["K", "PINV"], lambda A, a: L.pinv(A, a))
     # ---- log-determinant
     for nm, f in (("slogdet", L.slogdet), ("logdet", L.logdet)):
-        kw = (lambda *a, **k: (a, k))
         form(f"{nm}(A)", "slogdet", ["K"], lambda A, f=f: f(A),
              None if nm == "slogdet" else lambda A: ((A, ), {"log_alg": L.Auto(), "trace_alg": L.Auto()}))
         form(f"{nm}(A, log_alg)", "slogdet", ["K", "LOG"], lambda A, a, f=f: f(A, a),
@@ -317,7 +316,6 @@ def forms():
         form(f"{nm}(A, trace_alg=t)", "slogdet", ["K", "TRACE"], lambda A, t, f=f: f(A, trace_alg=t),
              (lambda A, t: ((A, ), {"trace_alg": t})) if nm == "slogdet" else
              (lambda A, t: ((A, ), {"log_alg": L.Auto(), "trace_alg": t})))
-        del kw
     # ---- diagonal / trace
     form("diag(A)", "diag", ["K"], lambda A: L.diag(A))
     form("diag(A, k)", "diag", ["K", "INT"], lambda A, k: L.diag(A, k))
@@ -607,10 +605,6 @@ def abstract_signature(f):
     raise RuntimeError("abstract wrapper without a signature in its closure")
 
 
-def entry_is_abstract(m, fname, call_entry=None):
-    return hasattr(m.functions[fname]["function"], "_abstract")
-
-
 def dispatch_args(m, fname, entry_abstract, pos, kw):
     """what reaches Resolver.resolve for a call entry(*pos, **kw)"""
     f = m.functions[fname]["function"]
@@ -816,12 +810,6 @@ def emit_lean(m, path):
         with open(path, "w") as f:
             f.write(txt)
     return old != txt
-
-
-def emit_properties(m, path):
-    """lean/ColaVerif/Gen/C04Obligations.lean is not used: the property file is hand-written and
-    refers to the generated names through `allFunctions`; kept for symmetry."""
-    return None
 
 
 def summary(m):
